@@ -12,7 +12,10 @@ NoSt == [n \in PNames |-> [kind |-> "unmarked"]]
 (* a policy whose trailing reject is missing, with a range that no target asks for                    *)
 ForeignEph == <<[name |-> CHOOSE n \in PNames : TRUE, reject |-> FALSE,
                  terms |-> <<[name |-> "inet", family |-> "inet", filters |-> SetSeq(A4), accept |-> TRUE]>>]>>
-Init == /\ eph \in {<<>>, ForeignEph} /\ runs = 0 /\ lastSt = NoSt
+(* ... and a policy whose inet term matches on the family alone (accepts every IPv4 route) *)
+BareEph == <<[name |-> CHOOSE n \in PNames : TRUE, reject |-> TRUE,
+              terms |-> <<[name |-> "inet", family |-> "inet", filters |-> <<>>, accept |-> TRUE]>>]>>
+Init == /\ eph \in {<<>>, ForeignEph, BareEph} /\ runs = 0 /\ lastSt = NoSt
         /\ phase = "idle" /\ sent = 0 /\ acked = 0 /\ failed = FALSE /\ commitSent = FALSE /\ commitAcked = FALSE
         /\ closed = 0 /\ exitOk = FALSE /\ nloads = 0
 
@@ -60,7 +63,8 @@ SpecProto == Init /\ [][ProtoNext]_vars
 
 (* C01 / C03 at the end of every (successful) data run *)
 InvConverged == runs > 0 /\ ReaderAccepts(eph) => Converged(eph, lastSt) /\ NoOrphans(eph, lastSt)
-InvReadBack  == ReaderAccepts(eph)
+(* (every state the agent itself installs; a foreign state it refuses to read stays as it is - it changes nothing) *)
+InvReadBack  == eph = BareEph \/ ReaderAccepts(eph)
 (* C02: every update of the plan for every possible next input, applied on its own to the current state *)
 InvUpdateSafe == ReaderAccepts(eph) =>
   \A st \in [PNames -> Status] : \A u \in PlanSet(st, InstalledView(eph)) : UpdateSafe(eph, u, st)
